@@ -75,9 +75,12 @@
   b)
 
 (defn derive-image
-  "mk k -> image of a value nested k deep whose encoding is  H A^k D B^k T ; returns n -> image nested n deep"
-  [mk]
-  (def m1 (string (mk 1))) (def m2 (string (mk 2))) (def m3 (string (mk 3)))
+  "mk k -> image of a value nested k deep whose encoding is  H A^k D B^k T ; returns n -> image nested n deep.
+  base: the first `base` levels may be encoded differently (first occurrence of a shared funcdef inline, later ones
+  as references): the regular part is derived from mk (base+1), (base+2), (base+3)"
+  [mk &opt base]
+  (default base 0)
+  (def m1 (string (mk (+ base 1)))) (def m2 (string (mk (+ base 2)))) (def m3 (string (mk (+ base 3))))
   (def d (- (length m2) (length m1)))
   (unless (= d (- (length m3) (length m2))) (error "image not regular"))
   (var found nil)
@@ -100,6 +103,56 @@
   (var d @{:arity 0 :bytecode @[['ldn 0] ['ret 0]]})
   (for i 0 k (set d @{:arity 0 :bytecode @[['ldn 0] ['ret 0]] :closures @[d]}))
   (marshal (asm d)))
+
+# one builder per recursive edge kind of unmarshal (marsh.c): value of a function environment, constant of a funcdef,
+# environment of a fiber's stack frame (+ the fiber's stack values), child of a fiber.  Real values nested 1..4 deep are
+# marshalled; the regular per-level byte strings are repeated n times (derive-image), so the images follow whatever the
+# marshal format of the tree under test is.
+(defn- wrap-env [g] (fn [] g))
+(defn env-nest [k] (var f (fn [] nil)) (for i 0 k (set f (wrap-env f))) (marshal f make-image-dict))
+(defn const-nest [k] (var f (fn [] 1)) (for i 0 k (set f ((compile ~(fn [] (quote ,f)))))) (marshal f make-image-dict))
+# fibers: a chain through fibers cannot be derived like that (back references by running index), so the per-level
+# bytes are cut out of the real image of ONE suspended fiber `(fn [] (yield 1))` and patched:
+#   LB_FIBER | fflags (LB_INTEGER + 4 bytes) | frame | stackstart | stacktop | maxstack (5 bytes) |
+#   frame flags | prevframe | pcdiff | function | [env] | stack slots (one-byte values) | [child] | last value (1 byte)
+#   child:     set JANET_FIBER_FLAG_HASCHILD (bit 29) in fflags, insert the next fiber before the last value
+#   frame env: frame flags |= JANET_STACKFRAME_HASENV (INT32_MIN), insert an off-stack environment `0 1 <next fiber>`
+#              after the function
+# The shape assumptions are checked (error = the sweep shows `err:` at depth 1 and checks/C19.py reports a broken tie).
+(defn- one-fiber []
+  (def f (fiber/new (fn [] (yield 1))))
+  (resume f)
+  (def img (marshal f make-image-dict))
+  (unless (and (= (img 1) 205) (= (img 9) 205) (< (img 6) 128) (< (img 7) 128) (< (img 8) 128) (< (img 14) 128)
+               (= (img (- (length img) 1)) 1))
+    (error "fiber image does not have the expected layout"))
+  (def nslots (- (img 7) 4 (img 6)))
+  (defn one-byte? [x] (or (< x 128) (<= 201 x 203)))
+  (for i 0 nslots (unless (one-byte? (img (- (length img) 2 i))) (error "fiber image: stack slots are not one-byte values")))
+  [img nslots])
+(defn fiber-child-image [n]
+  (def [img _] (one-fiber))
+  (def pre (buffer (slice img 0 (- (length img) 1))))
+  (put pre 2 (bor (pre 2) 0x20))
+  (def b (buffer/new (* n (length img))))
+  (repeat (- n 1) (buffer/push b pre))
+  (buffer/push b img)
+  (repeat (- n 1) (buffer/push-byte b 1))
+  b)
+(defn fiber-env-image [n]
+  (def [img nslots] (one-fiber))
+  (def cut (- (length img) 1 nslots))
+  (def fl (img 14))
+  (def pre (buffer (slice img 0 14)))
+  (buffer/push-byte pre 205 0x80 0 0 fl)           # frame flags | HASENV as a 5-byte integer
+  (buffer/push pre (slice img 15 cut))
+  (buffer/push-byte pre 0 1)                        # environment: off-stack, 1 value
+  (def post (slice img cut))
+  (def b (buffer/new (* n (+ 8 (length img)))))
+  (repeat (- n 1) (buffer/push b pre))
+  (buffer/push b img)
+  (repeat (- n 1) (buffer/push b post))
+  b)
 
 # PEG combinators: kind is "<special name>#<index>" into harness/C19/pegtemplates.janet
 (def here (let [f (dyn :current-file)] (string/slice f 0 (- (length f) (length "sweep.janet")))))
@@ -157,6 +210,12 @@
                 (if (function? r) nil (error (r :error))))
     "unmarshal-defs" (fn [n] (unmarshal ((derive-image def-nest) n)) nil)
     "unmarshal-abstract" (fn [n] (unmarshal ((derive-image peg-nest) n)) nil)
+    "unmarshal-env" (fn [n] (unmarshal ((derive-image env-nest 1) n) load-image-dict) nil)
+    "unmarshal-constants" (fn [n] (unmarshal ((derive-image const-nest 1) n) load-image-dict) nil)
+    "unmarshal-fiber-env" (fn [n] (def r (unmarshal (fiber-env-image n) load-image-dict))
+                            (unless (fiber? r) (error "crafted image did not give a fiber")) nil)
+    "unmarshal-fiber-child" (fn [n] (def r (unmarshal (fiber-child-image n) load-image-dict))
+                              (unless (fiber? r) (error "crafted image did not give a fiber")) nil)
     "compile-destructure-head" (fn [n]
                                  (def pat (build "btuple" n 'x))
                                  (def val (build "btuple" n 1))
